@@ -216,6 +216,9 @@ func (e *ETypes) callTypes(call *ssa.Call, idx int, add func(string, token.Pos))
 	var callees []*ssa.Function
 	if f := StaticCallee(call); f != nil {
 		callees = []*ssa.Function{f}
+	} else if mv := MethodValueCallees(call); len(mv) > 0 {
+		// a call through a method value chosen at run time (`h := p.A; if c { h = p.B }; h()`)
+		callees = mv
 	} else {
 		node := e.P.CallGraph().Nodes[call.Parent()]
 		if node != nil {
